@@ -220,6 +220,7 @@ package limiter
 //@ type queue
 //@   partof QueueBlockingLimiter
 //@   immutable: list, ordering
+//@   subobjects mu: list
 //@   inv deps: this.list != nil
 //@ type queueElement
 //@   immutable: ctx, releaseChan, next, prev
